@@ -265,10 +265,146 @@ class AttributeModel:
     def call_method(i, v, name, a, pl, h, tf, ctx):
         if name == 'path':
             return meta_path(deref(v.f['meta']))
-        if name == 'parse_args' or name == 'parse_args_with' or name == 'parse_nested_meta':
+        if name == 'parse_nested_meta':
+            return attr_parse_nested_meta(i, v, a[0])
+        if name == 'parse_args' or name == 'parse_args_with':
             raise Inconclusive('Attribute::%s is not modelled' % name)
         if name == 'to_token_stream':
             raise Inconclusive('Attribute::to_token_stream')
+        return NotImplemented
+
+
+# ---- syn::meta::ParseNestedMeta (syn 2: Attribute::parse_nested_meta) ----------------------------
+
+def syn_err(msg):
+    return Err(Struct('syn::Error', {'msg': Str(msg)}))
+
+
+def _is_punct(t, ch):
+    return t.ty == 'Punct' and V.ENG.decide(V.str_eq(deref(t.f['char']), Str(ch)))
+
+
+def _buf(items):
+    return Struct('ParseBuffer', {'items': [deref(x) for x in items], 'pos': 0})
+
+
+def _buf_empty(b):
+    return b.f['pos'] >= len(b.f['items'])
+
+
+def _parse_meta_path(b):
+    """syn::meta::parse_meta_path: [::] ident (:: ident)*  (keywords are accepted as identifiers)"""
+    items = b.f['items']
+    segs = []
+    leading = mk_none()
+    if b.f['pos'] + 1 < len(items) and _is_punct(items[b.f['pos']], ':') and _is_punct(items[b.f['pos'] + 1], ':'):
+        leading = Some(Struct('PathSep', {}))
+        b.f['pos'] += 2
+    while True:
+        if _buf_empty(b) or items[b.f['pos']].ty != 'Ident':
+            return None
+        segs.append(Struct('PathSegment', {'ident': Struct('Ident', {'sym': items[b.f['pos']].f['sym']}),
+                                           'arguments': Enum('PathArguments', 'None', [])}))
+        b.f['pos'] += 1
+        if b.f['pos'] + 1 < len(items) and _is_punct(items[b.f['pos']], ':') and _is_punct(items[b.f['pos'] + 1], ':'):
+            b.f['pos'] += 2
+            continue
+        break
+    return Struct('Path', {'leading_colon': leading, 'segments': Vec(segs, 'Punctuated')})
+
+
+def nested_meta_loop(interp, b, logic):
+    while True:
+        path = _parse_meta_path(b)
+        if path is None:
+            return syn_err('unexpected token in nested attribute, expected ident')
+        r = deref(interp.call_value(logic, [Struct('ParseNestedMeta', {'path': path, 'input': b})]))
+        if isinstance(r, Enum) and r.var == 'Err':
+            return r
+        if _buf_empty(b):
+            return Ok(())
+        if not _is_punct(b.f['items'][b.f['pos']], ','):
+            return syn_err('expected `,`')
+        b.f['pos'] += 1
+        if _buf_empty(b):
+            return Ok(())
+
+
+def attr_parse_nested_meta(interp, attr, logic):
+    meta = deref(attr.f['meta'])
+    if meta.var != 'List':
+        return syn_err('expected attribute arguments in parentheses')
+    ml = deref(meta.vals[0])
+    b = _buf(deref(ml.f['tokens']).f['items'].v)
+    if _buf_empty(b):
+        return Ok(())
+    return nested_meta_loop(interp, b, logic)
+
+
+class ParseNestedMetaModel:
+    @staticmethod
+    def call_method(i, v, name, a, pl, h, tf, ctx):
+        b = v.f['input']
+        if name == 'value':
+            if _buf_empty(b) or not _is_punct(b.f['items'][b.f['pos']], '='):
+                return syn_err('expected `=`')
+            b.f['pos'] += 1
+            return Ok(b)
+        if name == 'parse_nested_meta':
+            if _buf_empty(b) or b.f['items'][b.f['pos']].ty != 'Group':
+                return syn_err('expected parentheses')
+            g = b.f['items'][b.f['pos']]
+            d = deref(g.f['delimiter'])
+            if (d.ty if isinstance(d, Struct) else d.var) != 'Parenthesis':
+                return syn_err('expected parentheses')
+            b.f['pos'] += 1
+            inner = _buf(deref(g.f['stream']).f['items'].v)
+            if _buf_empty(inner):
+                return Ok(())
+            return nested_meta_loop(i, inner, a[0])
+        if name == 'error':
+            return Struct('syn::Error', {'msg': Str('nested meta error')})
+        return NotImplemented
+
+
+class ParseBufferModel:
+    @staticmethod
+    def call_method(i, v, name, a, pl, h, tf, ctx):
+        items = v.f['items']
+        if name == 'is_empty':
+            return _buf_empty(v)
+        if name == 'parse':
+            target = None
+            if tf:
+                target = tf[0]
+            elif h is not None:
+                from ..interp import type_head
+                hh, ha = type_head(h)
+                target = ha[0] if hh == 'Result' and ha else h
+            if target is None:
+                raise Inconclusive('ParseStream::parse without a target type')
+            from ..interp import type_head
+            tn, _ = type_head(target)
+            if _buf_empty(v):
+                return syn_err('unexpected end of input')
+            t = items[v.f['pos']]
+            if tn == 'LitStr':
+                if t.ty != 'Literal' or deref(deref(t.f['lit']).f['kind']).py() != 'str':
+                    return syn_err('expected string literal')
+                v.f['pos'] += 1
+                return Ok(Struct('LitStr', {'token': deref(t.f['lit'])}))
+            if tn == 'Ident':
+                if t.ty != 'Ident':
+                    return syn_err('expected identifier')
+                v.f['pos'] += 1
+                return Ok(Struct('Ident', {'sym': t.f['sym']}))
+            if tn in ('Lit', 'Expr'):
+                # a literal (optionally negative number) -- enough for attribute values; anything else is outside the model
+                if t.ty == 'Literal':
+                    v.f['pos'] += 1
+                    return Ok(Struct('OpaqueSyn', {'what': Str(tn)}))
+                raise Inconclusive('ParseStream::parse::<%s> on a non-literal token' % tn)
+            raise Inconclusive('ParseStream::parse::<%s>' % tn)
         return NotImplemented
 
 
@@ -403,7 +539,7 @@ def enum_method(i, v, name, a):
 
 B.EXT_STRUCT_MODELS['syn::Error'] = SynErrorModel
 for _n, _m in (('Ident', IdentModel), ('Span', SpanModel), ('Path', PathModel), ('Attribute', AttributeModel),
-               ('MetaList', MetaListModel), ('TokenStream', TokenStreamModel), ('LitStr', LitStrModel),
+               ('MetaList', MetaListModel), ('TokenStream', TokenStreamModel), ('LitStr', LitStrModel), ('ParseNestedMeta', ParseNestedMetaModel), ('ParseBuffer', ParseBufferModel),
                ('LitInt', LitNumModel), ('LitFloat', LitNumModel), ('LitBool', LitBoolModel)):
     B.EXT_STRUCT_MODELS[_n] = _m
 for _n in ('ItemFn', 'Signature', 'ExprMethodCall', 'ExprCall', 'Field', 'Variant', 'ItemStruct', 'ItemEnum', 'PatType',
